@@ -66,6 +66,12 @@ func (a *Authority) getProvisionerFromToken(token string) (provisioner.Interface
 	if !ok {
 		return nil, nil, fmt.Errorf("provisioner not found or invalid audience (%s)", strings.Join(claims.Audience, ", "))
 	}
+	// ACME and SCEP provisioners authorize requests through their own protocols
+	// and ignore the token, they cannot be used to authorize a token.
+	switch p.GetType() {
+	case provisioner.TypeACME, provisioner.TypeSCEP:
+		return nil, nil, errs.New(http.StatusUnauthorized, "provisioner %q cannot be used with tokens", p.GetName())
+	}
 	// If the provisioner is disabled, send an appropriate message to the client
 	if _, ok := p.(provisioner.Uninitialized); ok {
 		return nil, nil, errs.New(http.StatusUnauthorized, "provisioner %q is disabled due to an initialization error", p.GetName())
